@@ -12,7 +12,12 @@ PROP = dict(
                    "retries) replayed in the model, (c) the regenerated call skeleton of the registry methods as a proof obligation.",
         level_note="Single-threaded protocol only (races are C20). The early-reference factory and the creation body are inputs (their "
                    "results are supplied per call); what the real factory makes of them is the container model's business (C01-C03, C09).",
-        subs=[dict(sub="registry", n_quick=4000, n_thorough=300000)],
+        signatures=['early-', 'factory-', 'in-creation-flag', 'published-changed', 'recreated', 'stale-after-failure', 'registry-panic', 'c04-'],
+        subs=[dict(sub="registry", n_quick=4000, n_thorough=300000),
+              # the graph harness with its re-entrant callbacks: a second creation of a name must never start inside the first
+              # (oracle c04-nested-creation, from the tracer around the real registry); only that oracle is C04's, and the
+              # comparison with the machine model is left to C01-C03 (projection to nothing)
+              dict(sub="graph", n_quick=1200, n_thorough=20000, project=lambda obs: None)],
         thorough_seeds=1,
         rule="exhaustive small scope first: EVERY forest of <= 3 (quick) / <= 4 (thorough) operations over 2 names (lookup x allowEarly x "
              "early factory fails/succeeds; doGetComponent x early x fails/succeeds x every body), each followed by probes of both names "
